@@ -191,7 +191,16 @@ static char *all_dumps (object_t *ob) {
   return d;
 }
 
-static int loads_done, binary_loads;
+static int loads_done, binary_loads, backdated_use;
+
+/* content of a dependency changed after binary b was built, yet its time stamp is not newer (set back explicitly):
+ * the property speaks about edits whose modification time is the time of the edit, so such a world is outside its domain */
+static int built_from_other_content (int b) {
+  int deps_main[] = { F_MAIN, F_AH, F_BH, F_BASE, F_CH, F_BASE2, -1 }, deps_base[] = { F_BASE, F_CH, -1 }, deps_base2[] = { F_BASE2, -1 };
+  int *d = b == B_MAIN ? deps_main : b == B_BASE ? deps_base : deps_base2;
+  for (int i = 0; d[i] >= 0; i++) if (bin_ver[b][d[i]] != ver[d[i]]) return 1;
+  return 0;
+}
 
 static object_t *do_load (int save, const char *why) {
   unsigned long sig0[NBIN], sig1[NBIN]; long ns0[NBIN], ns1[NBIN];
@@ -201,6 +210,7 @@ static object_t *do_load (int save, const char *why) {
   for (int b = 0; b < NBIN; b++) { sig0[b] = file_sig (bin_name[b], &ns0[b]); reason[b] = stale_reason (b); if (reason[b]) reason[b] = strdup (reason[b]); }
   n_open = 0;
   safe_apply_master_ob ("clear_errors", 0);
+  backdated_use = 0;
   object_t *ob = hx_load ("c17/main", 0);
   loads_done++;
   if (!ob) { vx_fail ("C17:load-failed", "%s: main does not load: %s", why, hx_last_error); return 0; }
@@ -213,6 +223,7 @@ static object_t *do_load (int save, const char *why) {
     vx_obs ("  %s: %s %s%s%s%s", why, bin_name[b], used ? "USED" : "not used", reason[b] ? " (reference: must not be used: " : "", reason[b] ? reason[b] : "", reason[b] ? ")" : "");
     if (used) {
       binary_loads++;
+      if (!reason[b] && built_from_other_content (b)) { backdated_use = 1; vx_obs ("  %s: %s used; a dependency was edited and then given an older time stamp: equivalence is not expected", why, bin_name[b]); }
       if (reason[b]) { char key[160]; snprintf (key, sizeof key, "C17:stale-binary-used:%s:%s", b == B_MAIN ? "main" : "inherited", reason[b]); vx_fail (key, "%s: %s was used although: %s", why, bin_name[b], reason[b]); }
     }
   }
@@ -228,10 +239,25 @@ static object_t *do_load (int save, const char *why) {
     }
   }
   for (int b = 0; b < NBIN; b++) free ((char *) reason[b]);
+  {
+    /* Tables inside a program are ordered by the ADDRESSES of shared strings (function names, string-switch labels).
+       Once something has been saved, keep these strings alive, allocated in the opposite order: whatever is loaded
+       or compiled later sees them at addresses whose order differs from the order at the time of the save. */
+    static int perturbed;
+    static const char *names[] = { "typed", "run", "north", "gamma", "fail2", "fail", "beta", "alpha", "b_name", 0 };
+    if (!perturbed && (bin_exists[B_MAIN] || bin_exists[B_BASE])) {
+      perturbed = 1;
+      destruct_all ();          /* the programs release their strings */
+      for (int i = 0; names[i]; i++) make_shared_string (names[i]);
+      ob = hx_load ("c17/main", 0);
+      n_open = 0;
+    }
+  }
   return ob;
 }
 
 static void compare_with_fresh (object_t *ob, const char *why) {
+  if (backdated_use) { vx_count (3, 1); return; }
   char *d1 = all_dumps (ob), *r1 = strdup (results (ob));
   int problems = pd_last_problems ();
   /* the reference: CURRENT sources, binaries disabled */
@@ -330,8 +356,10 @@ static void apply_op (op_t *o, int step) {
 
 static int rank_of (long t, long *all, int n) { int r = 0; for (int i = 0; i < n; i++) if (all[i] < t) r++; return r; }
 
+static int explore_variants;
 static void body (void) {
   char canon[1500];
+  if (explore_variants) prog_variant = vx_choose_free (64, "variant");
   /* private root for this execution */
   snprintf (root, sizeof root, "%s/w%d", hx_scratch_dir (), (int) getpid ());
   mkdir (root, 0755);
@@ -372,6 +400,7 @@ int main (int argc, char **argv) {
   char cmd[4 * PATH_MAX];
   vx_init_args (argc, argv);
   prog_variant = (int) vx_opt_long ("prog", 63);
+  if (prog_variant < 0) { explore_variants = 1; prog_variant = 0; }
   depth = (int) vx_opt_long ("depth", 3);
   selftest = (int) vx_opt_long ("selftest", 0);
   verbose = (int) vx_opt_long ("verbose", 0);
@@ -381,7 +410,7 @@ int main (int argc, char **argv) {
   if (system (cmd)) { fprintf (stderr, "cannot create scratch mudlib\n"); return 2; }
   hx_boot (libdir, "SaveBinaryDir /c17bin\n", 0);
   build_ops ();
-  vx_count_name (0, "loads_compared_with_fresh_compile"); vx_count_name (1, "loads"); vx_count_name (2, "binaries_used");
+  vx_count_name (0, "loads_compared_with_fresh_compile"); vx_count_name (1, "loads"); vx_count_name (2, "binaries_used"); vx_count_name (3, "loads_outside_domain_backdated_edit");
   {
     extern int __sanitizer_symbolize_pc (void *, const char *, char *, size_t) __attribute__ ((weak));
     char sym[256];
